@@ -38,6 +38,14 @@ def main():
             obl = [l.strip() for l in out.split('\n') if l.strip().startswith('obligation=')]
             rec['checks'][pid] = {'exit': rc, 'violations': len(viol), 'first': (obl[:3]), 'wall_s': round(time.time() - t0, 1),
                                   'errors': [l for l in out.split('\n') if l.startswith(('CHECKER-ERROR', 'UNDECIDED'))][:3]}
+            if os.environ.get('SEEDED_DEDUCTIVE'):
+                # what the deductive tier says on its own (no bounded witness to lean on)
+                rc2, out2 = sh('./check %s --tier quick --only deductive' % pid, cwd='/verif')
+                obl2 = [l.strip() for l in out2.split('\n') if l.strip().startswith('obligation=')]
+                rec['checks'][pid]['deductive_alone'] = {
+                    'exit': rc2, 'violations': len([l for l in out2.split('\n') if l.startswith('VIOLATION')]),
+                    'first': obl2[:3],
+                    'errors': [l for l in out2.split('\n') if l.startswith(('CHECKER-ERROR', 'UNDECIDED'))][:2]}
     finally:
         sh('git -C /repo checkout -- .')
     rc, out = sh('/venv/bin/python %s/demo.py' % d, cwd='/repo', env=dict(os.environ, PYTHONPATH='/repo'))
